@@ -7,6 +7,7 @@ recording proxy for `heapq.heappop`), plus the property statement evaluated on t
 import json, os, sys, time, collections
 from vlib import wire, rng, leanbuild, verdict, bot
 from vlib.verdict import Case
+import c18_plugin
 
 PROPERTY = 'C18'
 MANIFEST = {
@@ -75,7 +76,8 @@ class Clock(object):
 def env():
     global _env
     if _env is None:
-        bot.light()
+        # the live bot first (the registry must be opened before supybot.conf is imported)
+        bot.full(plugins=('Owner', 'Misc', 'User', 'Utilities', 'Scheduler'))
         from supybot import schedule, drivers
         clk = Clock()
         clk.real = time.time; clk.virtual = lambda: float(clk.t)
@@ -493,12 +495,31 @@ def run_case(P, ops, kind):
              tags=tuple(sorted(im.tags)), kind=kind)
     return c, lines
 
-def explore(stream, n, maxlen, corpus=(), budget=75.0):
+def run_plugin_case(ops, kind):
+    mod, drivers, clk = env()
+    saved = mod.heapq
+    def install(im):
+        mod.heapq = HeapProxy(im)
+    try:
+        return c18_plugin.run_case(ops, kind, clk, install)
+    finally:
+        mod.heapq = saved
+
+def explore(stream, n, maxlen, corpus=(), budget=75.0, n_plugin=0, plugin_corpus=()):
     r = rng.make(stream)
     cases = []; lines = []; spans = []
+    rp = rng.make(stream + '-plugin')
+    tp = time.time()
+    for i in range(len(plugin_corpus) + n_plugin):
+        ops = plugin_corpus[i] if i < len(plugin_corpus) else c18_plugin.gen_ops(rp)
+        c, ml = run_plugin_case(ops, 'plugin-corpus' if i < len(plugin_corpus) else 'plugin')
+        spans.append((c, len(lines), len(ml), 0))
+        lines.extend(ml); cases.append(c)
+        if time.time() - tp > budget * 0.5 or len([x for x in cases if x.oracle_ok is False]) >= 10:
+            break
     def add(P, ops, kind):
         c, ml = run_case(P, ops, kind)
-        spans.append((c, len(lines), len(ml)))
+        spans.append((c, len(lines), len(ml), 1))
         lines.extend(ml); cases.append(c)
     for P, ops in corpus:
         add(P, ops, 'corpus')
@@ -516,8 +537,11 @@ def explore(stream, n, maxlen, corpus=(), budget=75.0):
 
 def fill_model(cases, lines, spans):
     outs = wire.run_driver(PROPERTY, lines)
-    for c, start, ln in spans:
-        o = outs[start + 1:start + ln]          # skip the `prog` line
+    for c, start, ln, skip in spans:
+        o = outs[start + skip:start + ln]          # skip the `prog` line of a core case
+        if 'plugin_ops' in c.input:
+            c.model = '\n'.join(c18_plugin.canon_model(x) for x in o)
+            continue
         c.model = '\n'.join(canon_model(x) for x in o)
         if any(x == 'invalid' for x in o):
             c.tags = tuple(sorted(set(c.tags) | {'m-invalid-picks'}))
@@ -537,7 +561,8 @@ def load_corpus():
         for f in sorted(os.listdir(d)):
             if f.endswith('.json'):
                 j = json.load(open(os.path.join(d, f)))
-                out.append((j['prog'], j['ops']))
+                if 'prog' in j:
+                    out.append((j['prog'], j['ops']))
     except OSError:
         pass
     return out
@@ -575,7 +600,49 @@ def shrink(P, ops, budget=300):
                 P = cand
     return P, head + body
 
+def load_plugin_corpus():
+    d = os.path.join(os.path.dirname(os.path.dirname(os.path.abspath(__file__))), 'corpus', 'C18')
+    out = []
+    try:
+        for f in sorted(os.listdir(d)):
+            if f.endswith('.json'):
+                j = json.load(open(os.path.join(d, f)))
+                if 'plugin_ops' in j:
+                    out.append(j['plugin_ops'])
+    except OSError:
+        pass
+    return out
+
+def shrink_plugin_case(c, budget=150):
+    ops = c.input['plugin_ops']
+    head, body = ops[:1], ops[1:]
+    def bad(o):
+        try:
+            return run_plugin_case(o, 'shrink')[0].oracle_ok is False
+        except Exception:
+            return False
+    n = 0
+    chunk = max(1, len(body) // 2)
+    while chunk >= 1 and n < budget:
+        i = 0; changed = False
+        while i < len(body) and n < budget:
+            cand = body[:i] + body[i + chunk:]
+            n += 1
+            if bad(head + cand):
+                body = cand; changed = True
+            else:
+                i += chunk
+        if not changed or chunk == 1:
+            chunk //= 2
+    c2, _ = run_plugin_case(head + body, c.kind + '-shrunk')
+    if c2.oracle_ok is False:
+        c2.input['unshrunk'] = ops
+        return c2
+    return c
+
 def shrink_case(c):
+    if 'plugin_ops' in c.input:
+        return shrink_plugin_case(c)
     P, ops = shrink(c.input['prog'], c.input['ops'])
     c2, _ = run_case(P, ops, c.kind + '-shrunk')
     if c2.oracle_ok is False:
@@ -586,7 +653,8 @@ def shrink_case(c):
 def run(ctx):
     build = leanbuild.ensure(PROPERTY, THEOREMS, thorough=ctx.thorough, extractors=[])
     n, maxlen = (80000, 60) if ctx.thorough else (4000, 40)
-    cases, lines, spans = explore('c18', n, maxlen, load_corpus(), budget=(840.0 if ctx.thorough else 75.0))
+    cases, lines, spans = explore('c18', n, maxlen, load_corpus(), budget=(840.0 if ctx.thorough else 75.0),
+                                  n_plugin=(2500 if ctx.thorough else 220), plugin_corpus=load_plugin_corpus())
     if build.driver_ok:
         fill_model(cases, lines, spans)
     for i, c in enumerate(cases):
@@ -598,7 +666,8 @@ def run(ctx):
     def search(disagreements, broken):
         os.environ['VERIF_SEED'] = str(ctx.seed + 7919)
         try:
-            more, _, _ = explore('c18-search', 8000, 50, [(d.input['prog'], d.input['ops']) for d in disagreements[:50]])
+            more, _, _ = explore('c18-search', 8000, 50, [(d.input['prog'], d.input['ops']) for d in disagreements[:50] if 'prog' in d.input],
+                                 n_plugin=600, plugin_corpus=[d.input['plugin_ops'] for d in disagreements[:20] if 'plugin_ops' in d.input])
         finally:
             os.environ['VERIF_SEED'] = str(ctx.seed)
         bad = [c for c in more if c.oracle_ok is False]
@@ -618,6 +687,19 @@ def replay(ctx, path):
     c = d.get('case') or d.get('first_disagreement')
     if not c:
         print(json.dumps(d, indent=1)[:3000]); return 0
+    if 'plugin_ops' in c['input']:
+        ops = c['input']['plugin_ops']
+        case, _ = run_plugin_case(ops, 'replay')
+        print('operations on the live bot (padd = scheduler add/remind <seconds> "echo c<N>", premove = scheduler remove,')
+        print('prepeat = scheduler repeat, preload/punload/pload = owner commands, prestart = stop and start the bot,')
+        print('ptick = the clock advances, prun = schedule.run()):')
+        for i, op in enumerate(ops):
+            print('  #%d %s' % (i, json.dumps(op)))
+        print('recorded oracle message:', c.get('oracle_msg'))
+        print('implementation now: oracle_ok=%s %s' % (case.oracle_ok, case.oracle_msg))
+        for l in (case.impl or '').split('\n'):
+            print('  ' + l)
+        return 0 if case.oracle_ok else 1
     P, ops = c['input']['prog'], c['input']['ops']
     case, _ = run_case(P, ops, 'replay')
     print('program (bodies of the event functions):')
